@@ -302,6 +302,7 @@ def run(ctx):
                 shapes = set()
                 runs = 0
                 minlen = None
+                out_extents = set()
                 for r in range(block):
                     for hi in ((0, 1) if scale == 8 else (0,)):       # bit counter: two representatives mod 512
                         it = LayoutInterp(prog, SINKS)
@@ -312,6 +313,8 @@ def run(ctx):
                         it.regions['ctx.' + buf] = dict((i, ('M', i)) for i in range(r))
                         it.invoke(f, ['ctx' if p_.op == cparam else Ptr('digest', 0) for p_ in f.params])
                         runs += 1
+                        dg_ = it.regions.get('digest') or {}
+                        out_extents.add(tuple(sorted(k_ for k_ in dg_ if isinstance(k_, int))))
                         ok, msg = check_padding(it.stream, r, block, lenfield)
                         if not ok and bad is None:
                             bad = (r, msg)
@@ -325,6 +328,18 @@ def run(ctx):
                           block, lenfield, runs) if bad is None else
                       'with %d byte(s) buffered: %s' % bad, f.file, f.line, config=config,
                       sample={'function': fname, 'buffered': block - 1, 'layout': sorted(shapes)[-1]})
+                # ---- k  the digest written out is the whole digest of the algorithm: bytes 0 .. size-1, for every buffered
+                #         length (the caller's buffer is zero-filled, so a shorter output is a different digest)
+                want_sz = {'SHA1_Final': 20, 'sha256_final': 32, 'sha512_final': 64}.get(fname)
+                if want_sz is not None:
+                    ck.require(any(out_extents) , '%s: no store into the digest parameter seen by the interpreter' % fname)
+                    okx = out_extents == set([tuple(range(want_sz))])
+                    ck.ob('C18-k', 'R9.digest-extent', fname, 'output', okx,
+                          '%s() writes digest bytes 0..%d for every buffered length' % (fname, want_sz - 1) if okx else
+                          '%s() writes the digest bytes %s, the algorithm\'s digest has %d bytes (0..%d): the remaining bytes '
+                          'stay whatever the caller\'s buffer held, the digest differs from the standard algorithm and from '
+                          'the OpenSSL build' % (fname, sorted('%d..%d' % (e_[0], e_[-1]) if e_ else 'none' for e_ in out_extents),
+                                                 want_sz, want_sz - 1), f.file, f.line, config=config)
                 # ---- g  the length field carries (at least) 64 bits computed from the counters
                 if bad is None:
                     ck.ob('C18-g', 'R9.length-width', fname, 'length-field', minlen is not None and minlen >= 8,
